@@ -117,6 +117,44 @@ func retype(s hotstuff.QuorumSignature) (hotstuff.QuorumSignature, bool) {
 	return nil, false
 }
 
+// resplit keeps the concatenated serialisation of a multi-signature (Multi.ToBytes of the genuine one, framing included)
+// and the signer labels, and cuts those bytes into len(labels) other pieces: equal chunks when cuts is empty, otherwise at
+// the given positions. What the cache takes for the identity of a signature must tell the two apart.
+func resplit(s hotstuff.QuorumSignature, cuts []int) (hotstuff.QuorumSignature, bool) {
+	labels := labelsOf(s)
+	k := len(labels)
+	if k < 2 {
+		return nil, false
+	}
+	raw := s.ToBytes()
+	pos := make([]int, 0, k+1)
+	pos = append(pos, 0)
+	for i := 1; i < k; i++ {
+		if len(cuts) == 0 {
+			pos = append(pos, i*len(raw)/k)
+		} else {
+			pos = append(pos, ((cuts[(i-1)%len(cuts)]*37+i*11)%(len(raw)+1)+len(raw)+1)%(len(raw)+1))
+		}
+	}
+	pos = append(pos, len(raw))
+	sort.Ints(pos)
+	switch s.(type) {
+	case crypto.Multi[*crypto.ECDSASignature]:
+		out := make([]*crypto.ECDSASignature, k)
+		for i := 0; i < k; i++ {
+			out[i] = crypto.RestoreECDSASignature(raw[pos[i]:pos[i+1]], hotstuff.ID(labels[i]))
+		}
+		return crypto.Multi[*crypto.ECDSASignature](out), true
+	case crypto.Multi[*crypto.EDDSASignature]:
+		out := make([]*crypto.EDDSASignature, k)
+		for i := 0; i < k; i++ {
+			out[i] = crypto.RestoreEDDSASignature(raw[pos[i]:pos[i+1]], hotstuff.ID(labels[i]))
+		}
+		return crypto.Multi[*crypto.EDDSASignature](out), true
+	}
+	return nil, false
+}
+
 func ctxKey(kind string, parts ...any) string { return kind + ":" + fmt.Sprint(parts...) }
 
 func prop(c c11Case) common.Result {
@@ -296,14 +334,20 @@ func prop(c c11Case) common.Result {
 				}
 			}
 			pool = append(pool, poolSig{ps, perm, p.msgs})
-		case "retyped":
-			// replay of a signature under another scheme's name (same bytes, same labels): first the genuine one, then the
-			// retyped one, for the same message(s)
+		case "retyped", "resplit":
+			// replay of a signature under another scheme's name (same bytes, same labels), or of its serialised bytes cut
+			// into other pieces (same labels): first the genuine one, then the altered one, for the same message(s)
 			if len(pool) == 0 {
 				continue
 			}
 			p := pick(o.A)
-			rs, ok := retype(p.sig)
+			var rs hotstuff.QuorumSignature
+			var ok bool
+			if o.K == "retyped" {
+				rs, ok = retype(p.sig)
+			} else {
+				rs, ok = resplit(p.sig, o.L)
+			}
 			if !ok {
 				continue
 			}
@@ -328,10 +372,10 @@ func prop(c c11Case) common.Result {
 					ok1, p1, m1 = call(func() error { return cached.BatchVerify(sg, batch) })
 					ok2, p2, m2 = call(func() error { return plain.BatchVerify(sg, batch) })
 				}
-				note(sg, ctxKey("retyped", round, p.msgs, labelsOf(sg)), ok2)
+				note(sg, ctxKey(o.K, round, p.msgs, labelsOf(sg)), ok2)
 				if ok1 != ok2 || p1 != p2 {
-					return common.Fail("retyped-"+fpSide(ok1), "signature really signed per signer %v, labels %v, presented as %T (round %d; the genuine one is %T): cached accepted=%v panicked=%v (%s), uncached accepted=%v panicked=%v (%s)\n%s",
-						p.msgs, labelsOf(sg), sg, round, p.sig, ok1, p1, m1, ok2, p2, m2, step)
+					return common.Fail(o.K+"-"+fpSide(ok1), "signature really signed per signer %v, labels %v, presented as %T (round %d; the genuine one is %T; op %s): cached accepted=%v panicked=%v (%s), uncached accepted=%v panicked=%v (%s)\n%s",
+						p.msgs, labelsOf(sg), sg, round, p.sig, o.K, ok1, p1, m1, ok2, p2, m2, step)
 				}
 			}
 		case "signshaped":
@@ -544,7 +588,7 @@ func genCase(rt *rapid.T) c11Case {
 	}
 	c.Cap = rapid.SampledFrom([]int{1, 2, 3, 4, 5, 6, 7, 8, 100, 1, 2, 3, 4, 5, 6, 7, 8, 100, -1, math.MinInt}).Draw(rt, "cap") // -1, MinInt: WithCache(MaxUint), WithCache(MaxInt+1)
 	c.Verifier = rapid.IntRange(1, c.N).Draw(rt, "verifier")
-	kinds := []string{"sign", "sign", "signbatch", "combine", "relabel", "verify", "verify", "verify", "batch", "batch", "mkqc", "mktc", "mkagg", "vcert", "vcert", "vcert", "signshaped", "verifyshaped", "verifyshaped", "nilsig", "permuted", "permuted", "retyped"}
+	kinds := []string{"sign", "sign", "signbatch", "combine", "relabel", "verify", "verify", "verify", "batch", "batch", "mkqc", "mktc", "mkagg", "vcert", "vcert", "vcert", "signshaped", "verifyshaped", "verifyshaped", "nilsig", "permuted", "permuted", "retyped", "resplit", "resplit"}
 	maxOps := 60
 	if c.Scheme == "bls12" {
 		maxOps = 25
@@ -555,7 +599,7 @@ func genCase(rt *rapid.T) c11Case {
 		o.A = rapid.IntRange(0, 11).Draw(rt, "a")
 		o.B = rapid.IntRange(0, 7).Draw(rt, "b")
 		o.C = rapid.IntRange(0, 27).Draw(rt, "c")
-		if o.K == "combine" || o.K == "relabel" || o.K == "batch" || o.K == "signbatch" {
+		if o.K == "combine" || o.K == "relabel" || o.K == "batch" || o.K == "signbatch" || (o.K == "resplit" && rapid.Bool().Draw(rt, "cuts")) {
 			o.L = rapid.SliceOfN(rapid.IntRange(0, 23), 0, 5).Draw(rt, "l")
 		}
 		c.Ops = append(c.Ops, o)
